@@ -32,6 +32,11 @@ type BucketCheck struct {
 	Name     string `json:"name"`
 	Function string `json:"function"` // key of the function (closure) holding the Sprintf
 	Contains string `json:"contains"`
+	// Semantics: which DuckDB function the closure replaces — "default" (time_bucket/date_trunc without origin:
+	// buckets counted from 2000-01-03) or "origin" (3-argument time_bucket: counted from the given origin).
+	// EVERY rewrite template the closure builds (any Sprintf format beginning with to_timestamp() is held
+	// against it, not only the one named by Contains.
+	Semantics string `json:"semantics,omitempty"`
 }
 
 const defaultBucketOrigin = 946857600
@@ -49,7 +54,8 @@ func (p *Program) bucketObligations(bc BucketCheck) ([]*Obligation, []string) {
 	}
 	var obls []*Obligation
 	var undecided []string
-	found := 0
+	found, alts := 0, 0
+	sem := bc.Semantics
 	for _, b := range fn.Blocks {
 		for _, in := range b.Instrs {
 			call, ok := in.(*ssa.Call)
@@ -61,11 +67,15 @@ func (p *Program) bucketObligations(bc BucketCheck) ([]*Obligation, []string) {
 				continue
 			}
 			format := constant.StringVal(c.Value)
-			if !strings.Contains(format, bc.Contains) {
+			if !strings.Contains(format, bc.Contains) && !strings.HasPrefix(strings.ToLower(strings.TrimSpace(format)), "to_timestamp(") {
 				continue
 			}
 			found++
 			name := fmt.Sprintf("%s.bucket.%s", bc.Function, bc.Name)
+			if !strings.Contains(format, bc.Contains) {
+				alts++
+				name = fmt.Sprintf("%s.alt%d", name, alts)
+			}
 			shape, known := bucketShapes[strings.ToUpper(strings.Join(strings.Fields(format), " "))]
 			if !known {
 				undecided = append(undecided, fmt.Sprintf("%s: unrecognised rewrite template %q", name, format))
@@ -99,7 +109,7 @@ func (p *Program) bucketObligations(bc BucketCheck) ([]*Obligation, []string) {
 				ctx.decls = append(ctx.decls, `(declare-const t Int) (declare-const N Int) (declare-const O Int)
 (declare-const r Int) (declare-const q Int) (declare-const rr Int) (declare-const f Int) (declare-const rem Int) (declare-const d Int)`)
 				ctx.assume("(> N 0)")
-				if shape == "plain" {
+				if semOf(sem, shape) == "default" {
 					ctx.assume(fmt.Sprintf("(= O %d)", defaultBucketOrigin))
 				}
 				// r = epoch(ts)::BIGINT : nearest integer to t / 1e6
@@ -126,19 +136,22 @@ func (p *Program) bucketObligations(bc BucketCheck) ([]*Obligation, []string) {
 			parts := []part{
 				{"bucket-rewrite-subsecond-rounding", "(not (= (mod t 1000000) 0))", "timestamps with a sub-second part"},
 			}
-			if shape == "plain" {
+			if semOf(sem, shape) == "default" {
 				parts = append(parts,
 					part{"bucket-rewrite-truncates-toward-zero", "(< t 0)", "timestamps before 1970"},
 					part{"bucket-rewrite-epoch-origin", "(not (= (mod O N) 0))", "widths that do not divide the default origin 2000-01-03 (e.g. 7 hours, 1 week)"})
 			} else {
-				parts = append(parts, part{"bucket-rewrite-truncates-toward-zero", "(< t (* 1000000 O))", "timestamps before the origin"})
+				// (an origin-free template used for a call WITH an origin has no alignment excuse: nothing is known
+				// about the origin, so the main obligation below is simply refuted)
+				parts = append(parts, part{"bucket-rewrite-truncates-toward-zero", "(or (< t (* 1000000 O)) (< t 0))", "timestamps before the origin"})
 			}
 			// hints (k exists only in the aligned case: O = N*k)
 			hintDefs := "(declare-const k Int)"
 			var hintAssumes []string
 			dExpr := "(- q f)"
 			eq := "(= (* N d) (- (* N q) (* N f)))"
-			if shape == "plain" {
+			aligned := shape == "plain" && semOf(sem, shape) == "default"
+			if aligned {
 				dExpr = "(- (- q k) f)"
 				eq = "(= (* N d) (- (- (* N q) (* N k)) (* N f)))"
 			}
@@ -150,7 +163,7 @@ func (p *Program) bucketObligations(bc BucketCheck) ([]*Obligation, []string) {
 			for _, pt := range parts {
 				extra = append(extra, "(not "+pt.w+")")
 			}
-			if shape == "plain" {
+			if aligned {
 				extra = append(extra, "(= O (* N k))")
 			}
 			extra = append(extra, hintAssumes...)
@@ -196,4 +209,16 @@ func stripConv(v ssa.Value) ssa.Value {
 			return v
 		}
 	}
+}
+
+
+// semOf: the semantics a template is held against — the closure's declared one, or the template's own shape.
+func semOf(declared, shape string) string {
+	if declared != "" {
+		return declared
+	}
+	if shape == "origin" {
+		return "origin"
+	}
+	return "default"
 }
